@@ -254,6 +254,11 @@ def run(R):
                 continue
             for a in t['args']:
                 o = ih_.origin(a)
+                # a shared borrow (logging, a debug assertion, a length) cannot change the map
+                pl_ = (a.get('mv') or a.get('cp')) if isinstance(a, dict) else None
+                ty_ = ih_.ty(pl_['l']) if pl_ and not pl_.get('pr') else ''
+                if ty_.startswith('&') and not ty_.startswith('&mut'):
+                    continue
                 if mentions_field(o, 'metadata') and arg_root(through_calls(strip_refs(o), {'deref', 'deref_mut', 'borrow_mut', 'as_mut'})) == 1:
                     touch.append((bb, t))
         for bb, t in touch:
